@@ -33,7 +33,7 @@ Theorem in_g : in_grammar its sdecls vts body = true.
 Proof. vm_cast_no_check (eq_refl true). Qed.
 {count}Theorem case_ok : forall ins, Forall (fun i => In i alphabet) ins ->
   traceA (sstep dr false) (power_up_s dr) ins = traceA (sstep dl false) (power_up_s dl) ins.
-Proof. apply (dcheck_s_sound dr dl false alphabet 300000); vm_cast_no_check (eq_refl true). Qed.
+Proof. apply (dcheck_s_sound dr dl false alphabet 1000000); vm_cast_no_check (eq_refl true). Qed.
 """
 
 DIAG = """Eval vm_compute in (conc_all_ok (auto_Ts dr) dr, conc_all_ok (auto_Ts dl) dl).
@@ -76,7 +76,7 @@ def run_extra(ck, cases, c03):
     for c in inside:
         its, sd, vts, sinit, vinit = decls(c03, c.uni)
         path = os.path.join(ck.gen, c.name + "_lower.v")
-        count = "Eval vm_compute in (dcheck_s dr dl false alphabet 300000).\n" if len(files) < 3 else ""
+        count = "Eval vm_compute in (dcheck_s dr dl false alphabet 1000000).\n" if len(files) < 3 else ""
         alpha = c.alphabet or X.default_alphabet(c.design, c.alphabet_overrides)
         with open(path, "w") as f:
             f.write(CASE_TMPL.format(pre=PREAMBLE, dr=R.design_to_coq(c.design), its=its, sdecls=sd, vts=vts, sinit=sinit,
